@@ -10,7 +10,7 @@
 #include <string.h>
 
 extern "C" {
-int lf_write(const char *path, int mode, const unsigned char **recs, const size_t *lens, size_t n, int sync_each);
+int lf_write(const char *path, int mode, const unsigned char **recs, const size_t *lens, size_t n, int sync_each, void (*after)(void *, size_t), void *after_arg);
 int lf_read(const char *path, uint64_t initial_offset, void (*on_record)(void *, const unsigned char *, size_t), void (*on_report)(void *, size_t, int), void *arg);
 }
 
@@ -77,7 +77,19 @@ void exec_logfmt(const Plan &p, RunOut *out) {
       if (session.empty() && mode == 1) return;
       std::vector<const unsigned char *> ptrs; std::vector<size_t> lens;
       for (auto &s : session) { ptrs.push_back((const unsigned char *)s.data()); lens.push_back(s.size()); }
-      int rc = lf_write(path.c_str(), mode, ptrs.data(), lens.data(), session.size(), (int)p.geti("sync_each", 0));
+      // C03's mechanism: when add_record returns, the whole record has been handed to the operating system (the writer
+      // flushes its user-space buffer after every physical record); checked against the reference encoder's length
+      struct After { const string *path; const std::vector<string> *session; string enc; } af{&path, &session, expect};
+      auto after = [](void *a, size_t i) {
+        After *af = (After *)a;
+        ref::log_encode(&af->enc, (*af->session)[i]);
+        string disk;
+        simfs::read_file(*af->path, &disk);
+        count("os_visibility_checks");
+        if (disk.size() < af->enc.size())
+          violation("C03", "record_buffered", "after add_record of record %zu (%zu bytes) returned, the operating system has %zu bytes of the log, the complete record ends at %zu (block offset %zu): a process kill now loses an acknowledged write", i, (*af->session)[i].size(), disk.size(), af->enc.size(), af->enc.size() % ref::LOG_BLOCK);
+      };
+      int rc = lf_write(path.c_str(), mode, ptrs.data(), lens.data(), session.size(), (int)p.geti("sync_each", 0), after, &af);
       if (rc != 0) { violation("C15", "write_failed", "log writer failed without any fault: %s", rcname(rc)); return; }
       for (auto &s : session) { size_t before = expect.size(); ref::log_encode(&expect, s); if (before / ref::LOG_BLOCK != (expect.size() - 1) / ref::LOG_BLOCK) spans_block = true; written.push_back(s); }
       string disk;
